@@ -386,7 +386,7 @@ class FnTr:
         if e[0] == "cast" and e[2] == "usize" and e[1][0] == "mcall" and e[1][2] == "as_ptr" and not e[1][3] \
                 and e[1][1][0] == "mcall" and e[1][1][2] == "as_ref" and not e[1][1][3] \
                 and e[1][1][1][0] == "path" and self.is_cursor(e[1][1][1][1]):
-            return ("pos", "usize")
+            return ("addr", "usize")
         if e[0] == "call" and e[1][0] == "path" and e[1][1] in self.g.scanners and len(e[2]) == 1 \
                 and self.is_bytes_arg(e[2][0]):
             return ("(%s E fuel)" % self.g.scanners[e[1][1]], "unit")
